@@ -400,6 +400,34 @@ def big_io(chk, n, want=None):
                                "library_there": iout[max(0, k - 20):k + 20].hex(), "case": l if len(l) < 4000 else l[:4000] + "…"})
 
 
+def argv_stream(chk, tuc_binary, n):
+    """K-argv: the model of pico_args + parse_args + main's dispatch (Model/Argv.lean, driver kind `argv`) against the real binary on
+    random argument vectors: every spelling pico_args accepts (glued / `=` / quoted values, clusters of short flags), values that look
+    like options, repeated and unknown arguments, the --fallback-oob corner cases (generator: tool/argv_diff.py)"""
+    import subprocess
+    import argv_diff
+    from common import run_cli, ENV
+    rng = chk.rng
+    version_text = subprocess.run([tuc_binary, "-V"], stdout=subprocess.PIPE, env=ENV).stdout
+    cs = [argv_diff.gen_case(rng) for _ in range(n)]
+    real = run_cli(tuc_binary, cs)
+    model = argv_diff.run_lean(cs)
+    for (argv, stdin), m, (st, so) in zip(cs, model, real):
+        chk.evaluations += 1
+        v, cls = argv_diff.agree(m, (st, so), version_text)
+        chk.count("argv:" + cls)
+        if len(argv) >= 2:
+            chk.nontrivial_add(("argv", tuple(argv), stdin))
+        if st not in ("0", "1"):
+            chk.report_oracle("the binary ends with a status other than 0 or 1", {"argv": argv, "stdin_hex": stdin.hex(), "status": st})
+        elif v == "DIFF":
+            chk.disagreements_checked += 1
+            chk.report_tie("K-argv: the binary differs from the model of pico_args + parse_args (Tuc.Model.Argv.parseArgv) and main's dispatch",
+                           {"component": "K-argv", "argv": argv, "stdin_hex": stdin.hex(), "binary": [st, so.hex()[:400]], "model": m[:400]})
+        elif v == "ok":
+            chk.disagreements_checked += 1
+
+
 def cli_roundtrip(chk, tuc_binary, n, want=None):
     """binary vs model on n random accepted command lines; `want(argv)` filters"""
     from common import run_cli
